@@ -204,6 +204,20 @@ theorem C10_holds_meaning (me : Bytes) (evs : List Ev) (tail : Tail) (ps : List 
   obtain ⟨⟨⟨h1, h2⟩, -⟩, -⟩ := h
   exact ⟨h1, checkReads_prefix _ _ _ _ _ h2⟩
 
+/-- **Stream on a pooled connection**: whatever frames `residual` the previous tunnel left on the idle
+connection (any frames at all, ours-looking ones included), whatever the tracker says: `Get` hands out
+the idle connection only if nothing is pending on it, and the scenario of OUR tunnel that then runs on
+the connection handed out satisfies the stream property — no residual byte is delivered, none is
+missing, the end-of-stream is intact. -/
+theorem C10_pool_reuse (trk : Tracker) (me : Bytes) (residual evs : List Ev)
+    (hwf : ∀ e ∈ evs, evWF me e = true)
+    (cut : Bytes → List Bytes) (hcut : ∀ b, (cut b).flatten = b) (tail : Tail) (rw : Bool) (ps : List Nat) :
+    holdsStream me evs tail ps (runPool trk me residual evs cut tail rw ps).st = true ∧
+    ((runPool trk me residual evs cut tail rw ps).reused = true ↔
+      (runWriter (FS.init (tunnelIDFromString me) ⟨[], .eof⟩) residual).2.out = []) := by
+  refine ⟨C10_stream_main trk me evs hwf cut hcut tail rw ps, ?_⟩
+  simp [runPool, isHealthy]
+
 theorem expected_writes_closeWrite (me : Bytes) (ups : List Bytes) :
     expected me (ups.map Ev.write ++ [.closeWrite]) = (ups.flatten, true) := by
   induction ups with
